@@ -3,6 +3,7 @@ import re
 from mir import Origins, strip, short_span
 from dtable import pm, instrumented_body, resolve_upvars, param_index
 from rules import agent as A
+from rules import agent_e2 as AE
 from e1 import construct_sites, field_accesses
 
 LEVEL = "proof"
@@ -52,19 +53,10 @@ def run(prog, chk, tier):
            [c["body"] for c in cs] == [A.REQ + "::new"], detail=repr([c["body"] for c in cs]))
     # ---- StunRequestState::new
     rule = "provenance"
-    b, fl = agg_fields(prog, A.REQ + "::new", A.REQ, chk, rule)
-    if fl:
-        req = ("param", "request")
-        want = {
-            "bytes": ("call", r"MessageBuilder::<'a>::build$", [req]),
-            "from": ("param", "from"), "to": ("param", "to"), "transport": ("param", "transport"),
-            "transaction_id": ("call", r"MessageBuilder::<'a>::transaction_id$", [req]),
-        }
-        for f, pat in want.items():
-            chk.ob(rule, "StunRequestState::new|%s" % f, pm(fl[f], pat, b), b.loc(), detail="%s <- %r" % (f, fl[f]))
+    AE.req_new(prog, chk, rule, {"provenance"})
     # ---- send -> new (in the send table), poll -> send_data (in the request-poll table)
     A.send_table(prog, chk)
-    A.req_poll_table(prog, chk)
+    AE.req_poll(prog, chk)
     # ---- send_data -> Transmit::new (positional)
     sd = prog.bodies["stun_proto::agent::send_data"]
     og = Origins(prog, sd)
